@@ -1,6 +1,7 @@
 # property -> units, unit -> engine.  (DESIGN.md section 2.1)
 UNITS = {
     "health": dict(engine="verus", serves=["C20"]),
+    "authorizer": dict(engine="verus", serves=["C03", "C11", "C01"]),
 }
 
 PROPERTIES = {
@@ -18,6 +19,18 @@ PROPERTIES = {
         assumptions=[],
     ),
 }
+
+PROPERTIES["C03"] = dict(
+    units=["authorizer"],
+    technique="Verus contracts on the extracted real functions (trait-level spec function, table refinement, corollary lemmas)",
+    level_text="Deductive proof (Verus/Z3), all inputs and configurations: every Authorizer impl, get_authorizer and authorize, extracted "
+               "verbatim from proxy_authorizer.rs, are proved to compute the decision table written from the statement; the two sentences "
+               "of C03 are lemmas over that table for every rule view, mode and default access.",
+    level_note="Trusted: Verus/Z3/rustc; is_allowed's contract (decided in C02's unit); String==&str compares characters; &str "
+               "extensionality; logging stubs. Not covered: the end-to-end relay (C01's contract).",
+    design_ref="DESIGN.md section 3 C03",
+    assumptions=[],
+)
 
 NOT_APPLICABLE = {
     "C12": "secrecy over all outputs is a hyper-property (non-interference); no function contract expressible in Verus/Kani/CBMC here decides 'does not depend on the key' for format!/Display-built text, and a syntactic taint scan is a different family (DESIGN.md section 4)",
